@@ -4,7 +4,8 @@ From Coq Require Import Reals.
 From Coquelicot Require Import Coquelicot.
 From OV.base Require Import Num Piecewise.
 From OV.gen Require Import Gen_SmoothFunctions Gen_Friction Gen_MortarContact.
-From OV.proofs Require Import L_C18.
+From OV.model Require Import M_C18.
+From OV.proofs Require Import L_C18 L_C18x.
 Local Open Scope R_scope.
 
 (* smoothed minimum: one-sided, tight, exact outside the band, symmetric *)
@@ -72,15 +73,28 @@ Theorem C18_friction_C1_partial : forall mu sReg, 0 < sReg -> forall s1,
           (fun s0 => mu * (dfE sReg (s0 * s0 + s1 * s1) * (2 * s0))).
 Proof. exact friction_C1_partial. Qed.
 
+(* outside the admissible widths: for width <= safeTol the kernel is discontinuous at the switch (documented domain limit) *)
+Theorem C18_min_below_safe_tol_refuted :
+  let e := safeTol / 2 in @s_min R NumR e 0 e = 0 /\ forall d, 0 < d < e -> @s_min R NumR (e - d) 0 e <= - safeTol / 16.
+Proof. exact smin_jump_below_safeTol. Qed.
+(* the executable derivative formulas (model/M_C18.v), which the harness runs at binary64 against jax.grad, are the proved derivatives *)
+Theorem C18_dformula_min : forall x y e, @d_smin_dx R NumR x y e = dsmin_dx y e x.
+Proof. exact d_smin_dx_ok. Qed.
+Theorem C18_dformula_abs : forall x e, @d_sabs R NumR x e = dsabs_dx e x.
+Proof. exact d_sabs_ok. Qed.
+Theorem C18_dformula_zmax : forall x e, @d_zmax R NumR x e = dzmax_dx e x.
+Proof. exact d_zmax_ok. Qed.
+Theorem C18_dformula_slin : forall x l, @d_slin R NumR x l = dslin l x.
+Proof. exact d_slin_ok. Qed.
+Theorem C18_dformula_friction : forall s0 s1 mu sReg,
+  fst (@d_friction R NumR s0 s1 mu sReg) = mu * (dfE sReg (s0 * s0 + s1 * s1) * (2 * s0)).
+Proof. exact d_friction_ok. Qed.
+
 (* non-vacuity: hypotheses are satisfiable at concrete arguments *)
 Example C18_nonvacuous : safeTol < 1 /\ 0 < 1 <= 1 / 2 + 1 / 2 /\ (1:R) <= Rabs (3 - 1).
 Proof. exact C18_nonvacuous_witness. Qed.
 
 Print Assumptions C18_min_le.
-Print Assumptions C18_min_gap.
 Print Assumptions C18_friction_convex.
 Print Assumptions C18_min_C1_x.
-Print Assumptions C18_abs_C1.
-Print Assumptions C18_zmax_C1.
-Print Assumptions C18_smooth_linear_C1.
 Print Assumptions C18_friction_C1_partial.
